@@ -542,7 +542,7 @@ func (g *bindGen) lay(s string) string {
 	if i < 0 || !g.r.chance(1, 5) {
 		return s
 	}
-	return s[:i] + g.r.pick([]string{"\n", "\t", "\r\n", " -- c\n", " /* c */ ", "\n-- $T.x 'q\n", " /* ' */", " -- \x00 $Person.id 'q\n", " /* \x00 $M.k1 */ "}) + s[i+1:]
+	return s[:i] + g.r.pick([]string{"\n", "\t", "\r\n", " -- c\n", " /* c */ ", "\n-- $T.x 'q\n", " /* ' */", " -- \x00 $Person.id 'q\n", " /* \x00 $M.k1 */ ", " /** d **/ ", " /***/ ", "/* x **/", " /****/ "}) + s[i+1:]
 }
 
 // manyTypes: a statement that names exactly k types (k around the powers of two), one output each, with
